@@ -30,7 +30,7 @@ CANARIES = [
 def obligations(tier, seed):
     specs = []
     quick = [('order_n2', 60), ('order_n3', 120), ('order_n4_nofail', 120), ('raising_n2', 60), ('raising_n3', 120),
-             ('order_result_objects_imap', 150), ('sequential_branch', 60), ('single_call', 60), ('worker_contract', 90), ('starmap_one_result_per_item', 60)]
+             ('order_result_objects_imap', 150), ('sequential_branch', 60), ('single_call', 60), ('worker_contract', 90), ('starmap_one_result_per_item', 60), ('forced_shutdown_drains_both_queues', 60)]
     thorough = [('order_n4', 1200), ('raising_n4', 1200), ('order_n5_nofail', 900), ('order_n6_nofail', 1500)]
     for f, to in quick + (thorough if tier == 'thorough' else []):
         specs.append(crosshair_runner.spec(MOD, CH, f, 'pool/' + f, timeout=to, cost=to, functions=FUNCS))
